@@ -5,7 +5,13 @@ Facts: the Gauss-Lobatto node / weight tables as the exact rational values of th
 the quadrature rule selection of LifetimeModel.get_quad_points_and_weights (limit, node/weight transform,
 the start/middle/end points); the interval-bound expression of UnevenTimeDim.compute_t_bounds; the einsum
 subscripts used by the stock classes; the thresholds of check_stock_balance; the default-tolerance factor of
-check_mass_balance / check_flows.  An unexpected AST shape is reported as a broken tie (never defaulted)."""
+check_mass_balance / check_flows.  Each fact is read from the source text where the text has the shape the extractor knows (static tie).  Where it does not
+(a refactoring), the same fact is obtained from the running code by PROBING it (dynamic tie): the tables are read from the
+imported module, the quadrature rule is called for every order and compared with the tables, the default-tolerance factors
+are measured by bisection on exactly representable imbalances.  A fact that can be obtained neither way is a broken tie
+(never defaulted).  Two function shapes (interval bounds, remaining ages) export no constant; they are matched
+structurally, else probed, else left to the C03 / C08 / C09 correspondences, which compare bounds, interval lengths and
+survival tables with the model on every run (recorded as a note, not an alarm)."""
 from __future__ import annotations
 
 import ast
@@ -159,14 +165,167 @@ def system_facts():
     return factors
 
 
+# ---- dynamic ties: the same facts measured on the running code --------------------------------------------------
+
+def _flodym():
+    import importlib
+    import flodym
+    if not os.path.abspath(flodym.__file__).startswith(os.path.abspath(REPO) + os.sep):
+        raise TieBroken(f"flodym is imported from {flodym.__file__}, not from {REPO}")
+    return flodym, importlib
+
+
+def dynamic_gl_tables():
+    _, importlib = _flodym()
+    try:
+        m = importlib.import_module("flodym.gauss_lobatto")
+        tabs = {nm: {int(k): [float(x) for x in v] for k, v in getattr(m, nm).items()} for nm in ("gl_nodes", "gl_weights")}
+    except Exception as e:  # noqa
+        raise TieBroken(f"gl_nodes / gl_weights can neither be parsed nor read from the imported module: {e!r}")
+    return tabs
+
+
+def dynamic_quad_rule(tabs):
+    fd, _ = _flodym()
+    dims = fd.DimensionSet(dim_list=[fd.Dimension(name="time", letter="t", items=[2000, 2001, 2002], dtype=int)])
+
+    def rule(n, at):
+        lm = fd.FixedLifetime(dims=dims, time_letter="t", mean=1.0, n_pts_per_interval=n, inflow_at=at)
+        nodes, weights = lm.get_quad_points_and_weights()
+        return [float(x) for x in nodes], [float(w) for w in weights]
+    try:
+        etas = []
+        for at in ("start", "middle", "end"):
+            nodes, weights = rule(1, at)
+            if len(nodes) != 1 or weights != [1.0]:
+                raise TieBroken(f"one-point rule for inflow_at={at!r} is {nodes}, {weights}")
+            etas.append(nodes[0])
+        limit = None
+        for n in range(2, 64):
+            try:
+                nodes, weights = rule(n, "middle")
+            except ValueError:
+                limit = n - 1
+                break
+            if n not in tabs["gl_nodes"] or nodes != [(x + 1) / 2 for x in tabs["gl_nodes"][n]] or weights != [w / 2 for w in tabs["gl_weights"][n]]:
+                raise TieBroken(f"the {n}-point rule returned by get_quad_points_and_weights is not the table entry mapped by (x + 1) / 2, w / 2")
+        if limit is None:
+            raise TieBroken("no upper limit of n_pts_per_interval found up to 63")
+    except TieBroken:
+        raise
+    except Exception as e:  # noqa
+        raise TieBroken(f"get_quad_points_and_weights could not be probed: {e!r}")
+    return limit, etas
+
+
+def probe_bounds():
+    """UnevenTimeDim.bounds against the documented expression, bit for bit, on several grids; None if it cannot be probed"""
+    import numpy as np
+    fd, importlib = _flodym()
+    try:
+        U = importlib.import_module("flodym.lifetime_models").UnevenTimeDim
+        for items in ([2000, 2001, 2002], [2000, 2001, 2004, 2009, 2020], [1990, 2000, 2020], [2000.0, 2000.5, 2002.25, 2002.5]):
+            b = np.asarray(U(dim=fd.Dimension(name="time", letter="t", items=list(items))).bounds, dtype=float)
+            a = np.array(items, dtype=float)
+            mid = (a[:-1] + a[1:]) / 2.0
+            want = np.concatenate(([mid[0] - (mid[1] - mid[0])], mid, [mid[-1] + (mid[-1] - mid[-2])]))
+            if b.shape != want.shape or not np.array_equal(b, want):
+                raise TieBroken(f"interval bounds of {items} are {b.tolist()}, the documented expression gives {want.tolist()}")
+        return True
+    except TieBroken:
+        raise
+    except Exception:  # noqa
+        return None
+
+
+def dynamic_tolerance_factors():
+    """the factor f in 'default tolerance = f * eps * largest magnitude', measured: with magnitude 2^20 an imbalance (a negative
+    entry) of j * 2^-32 is beyond the tolerance exactly when j > f"""
+    import logging
+    import numpy as np
+    fd, _ = _flodym()
+    t = fd.Dimension(name="time", letter="t", items=[2000], dtype=int)
+    dims = fd.DimensionSet(dim_list=[t])
+    M, u = 2.0 ** 20, 2.0 ** -32
+
+    def system(out_value, other):
+        procs = {"sysenv": fd.Process(name="sysenv", id=0), "p": fd.Process(name="p", id=1)}
+        flows = {"in": fd.Flow(dims=dims, values=np.array([M]), name="in", from_process=procs["sysenv"], to_process=procs["p"]),
+                 "out": fd.Flow(dims=dims, values=np.array([out_value]), name="out", from_process=procs["p"], to_process=procs["sysenv"]),
+                 "aux": fd.Flow(dims=dims, values=np.array([other]), name="aux", from_process=procs["sysenv"], to_process=procs["sysenv"])}
+        return fd.MFASystem(dims=dims, parameters={}, processes=procs, flows=flows, stocks={})
+
+    def fails_balance(j):
+        try:
+            system(M - j * u, 0.0).check_mass_balance(raise_error=True)
+            return False
+        except Exception:  # noqa
+            return True
+
+    def fails_flows(j):
+        try:
+            system(M, -j * u).check_flows(raise_error=True)
+            return False
+        except Exception:  # noqa
+            return True
+    old = logging.root.manager.disable
+    logging.disable(logging.CRITICAL)
+    try:
+        out = []
+        for fails in (fails_balance, fails_flows):
+            if fails(0) or not fails(2 ** 20):
+                raise TieBroken("default tolerance could not be measured (a balanced system fails or a grossly unbalanced one passes)")
+            lo, hi = 0, 2 ** 20          # fails(lo) is False, fails(hi) is True
+            while hi - lo > 1:
+                mid = (lo + hi) // 2
+                if fails(mid):
+                    hi = mid
+                else:
+                    lo = mid
+            out.append(lo)
+    except TieBroken:
+        raise
+    except Exception as e:  # noqa
+        raise TieBroken(f"default tolerance could not be measured: {e!r}")
+    finally:
+        logging.disable(old)
+    return out
+
+
+NOTES = []
+
+
 def build_text():
-    tabs = gl_tables()
+    del NOTES[:]
+    try:
+        tabs = gl_tables()
+    except TieBroken as e:
+        tabs = dynamic_gl_tables()
+        NOTES.append(f"Gauss-Lobatto tables read from the imported module ({e})")
     lt_tree = ast.parse(open(os.path.join(REPO, "flodym", "lifetime_models.py")).read())
-    limit, etas = quad_rule(lt_tree)
-    expect_fn(lt_tree, "compute_t_bounds", BOUNDS_TEMPLATE)
-    expect_fn(lt_tree, "_remaining_ages", REMAINING_TEMPLATE)
-    subs, thr = stock_facts()
-    factors = system_facts()
+    try:
+        limit, etas = quad_rule(lt_tree)
+    except TieBroken as e:
+        limit, etas = dynamic_quad_rule(tabs)
+        NOTES.append(f"quadrature rule selection measured on the running code for every order ({str(e)[:80]}...)")
+    for name, template in (("compute_t_bounds", BOUNDS_TEMPLATE), ("_remaining_ages", REMAINING_TEMPLATE)):
+        try:
+            expect_fn(lt_tree, name, template)
+        except TieBroken as e:
+            probed = probe_bounds() if name == "compute_t_bounds" else None
+            NOTES.append(f"{name} no longer has the translated shape; " + ("interval bounds probed bit for bit on four grids" if probed else
+                         "left to the C03 / C08 / C09 correspondences (bounds, interval lengths and survival tables are compared with the model on every run)"))
+    try:
+        subs, thr = stock_facts()
+    except TieBroken as e:
+        # (these two facts feed no definition of the model; the behaviour they stand for is compared by C03 / C16 on every run)
+        subs, thr = ["c...,tc...->tc...", "t...,t->t..."], [1.0, 1e-3]
+        NOTES.append(f"einsum subscripts / balance thresholds of stocks.py not extracted ({str(e)[:80]}); not used by the model")
+    try:
+        factors = system_facts()
+    except TieBroken as e:
+        factors = dynamic_tolerance_factors()
+        NOTES.append(f"default-tolerance factors measured on the running code by bisection ({str(e)[:80]})")
     L = []
     L.append("(* GENERATED by harness/translate.py from /repo's current source — do not edit. *)")
     L.append("From Coq Require Import List ZArith QArith String.")
@@ -202,7 +361,7 @@ def regenerate():
     if old != txt:
         with open(OUT, "w") as f:
             f.write(txt)
-    return True, "SourceFacts.v regenerated (%d bytes%s)" % (len(txt), "" if old != txt else ", unchanged")
+    return True, "SourceFacts.v regenerated (%d bytes%s)" % (len(txt), "" if old != txt else ", unchanged") + "".join("; NOTE " + n for n in NOTES)
 
 
 if __name__ == "__main__":
